@@ -6,9 +6,9 @@ CONSTANTS
   WindowFix = TRUE
   GuardFix = TRUE
   CleanupFix = FALSE
-  SerialReg = FALSE
+  SerialReg = TRUE
   MaxBatch = 0
-  RetryEnds = TRUE
-  MaxAck = 0
-INVARIANTS AllGone NoCrash
+  RetryEnds = FALSE
+  MaxAck = 1
+INVARIANTS RetryCanEnd
 CHECK_DEADLOCK FALSE
